@@ -73,7 +73,9 @@ func cliQueries(q string, variant int) cliQuery {
 	case "num":
 		return cliQuery{expr: "count(//a)"}
 	}
-	switch variant % 6 {
+	switch variant % 7 {
+	case 6: // a reverse axis: the result arrives in reverse document order; the single record is still the FIRST node's string value
+		return cliQuery{expr: "//a/ancestor::*"}
 	case 4: // a prefixed variable given BEFORE the namespace mapping it needs
 		return cliQuery{expr: "//a[. != $n:skip]", args: []string{"-v", "n:skip=zzz", "-s", "n=urn:n"},
 			opts: []xsel.ContextApply{xsel.WithNS("n", "urn:n"), xsel.WithVariableNS("urn:n", "skip", xsel.String("zzz"))}}
@@ -125,6 +127,50 @@ func canon(c xsel.Cursor, b *strings.Builder) {
 }
 
 // xmlRecordMatches: does the -m record parse back to the node?
+// xmlNameable: every element / attribute / PI name in the subtree can be written as an XML name
+func xmlNameable(c xsel.Cursor) bool {
+	okName := func(s string) bool {
+		if s == "" {
+			return false
+		}
+		for i, r := range s {
+			if r == '_' || r >= 0x80 || (r >= 'a' && r <= 'z') || (r >= 'A' && r <= 'Z') {
+				continue
+			}
+			if i > 0 && (r == '-' || r == '.' || (r >= '0' && r <= '9')) {
+				continue
+			}
+			return false
+		}
+		return true
+	}
+	switch n := c.Node().(type) {
+	case node.Element:
+		if !okName(n.Local()) {
+			return false
+		}
+	case node.Attribute:
+		if !okName(n.Local()) {
+			return false
+		}
+	case node.ProcInst:
+		if !okName(n.Target()) {
+			return false
+		}
+	}
+	for _, a := range c.Attributes() {
+		if !xmlNameable(a) {
+			return false
+		}
+	}
+	for _, ch := range c.Children() {
+		if !xmlNameable(ch) {
+			return false
+		}
+	}
+	return true
+}
+
 func xmlRecordMatches(record string, c xsel.Cursor) (bool, string) {
 	if strings.Contains(record, "\n") {
 		return false, "record spans several lines"
@@ -132,6 +178,14 @@ func xmlRecordMatches(record string, c xsel.Cursor) (bool, string) {
 	switch c.Node().(type) {
 	case node.Attribute, node.Namespace:
 		return true, "" // stand-alone serialisation of attribute / namespace nodes is not constrained
+	}
+	if !xmlNameable(c) {
+		// names of the JSON mapping (#obj, #arr) and of HTML tag soup are not XML names: no XML text can parse back to
+		// such a node, so only the shape of the record (one line, an element) is checked
+		if strings.HasPrefix(record, "<") {
+			return true, ""
+		}
+		return false, "record is not a serialisation at all"
 	}
 	back, err := xsel.ReadXml(strings.NewReader("<w>" + record + "</w>"))
 	if err != nil {
@@ -189,7 +243,7 @@ func cliCase(line string, rep *Report, fnd *Findings) {
 			os.WriteFile(full, []byte(cliContent(e.Cls, strings.ToUpper(strings.ReplaceAll(e.Name, ".", "_")))), 0o644)
 		}
 	}
-	q := cliQueries(gl.Flags.Q, int(h%6))
+	q := cliQueries(gl.Flags.Q, int(h%7))
 	args := []string{"-x", q.expr}
 	args = append(args, q.args...)
 	if gl.Flags.A {
